@@ -113,6 +113,51 @@ func TestKnown_C01_DeleteForeignRecord(t *testing.T) {
 	}
 }
 
+// The same against the real store (embedded NATS server, the library's own adapter): since the adapter offers a
+// revision-checked delete, a stopping ex-owner no longer removes its successor's record.
+func TestKnown_C01_DeleteForeignRecord_RealStore(t *testing.T) {
+	ctx, cancel := context.WithCancel(context.Background())
+	defer cancel()
+	srv, err := StartEmbeddedNATSServer(ctx)
+	if err != nil {
+		t.Skipf("embedded server: %v", err)
+	}
+	defer func() { _ = StopEmbeddedNATSServer(srv) }()
+	conn, err := nats.Connect(srv.ClientURL())
+	if err != nil {
+		t.Skipf("connect: %v", err)
+	}
+	defer conn.Close()
+	if err := CreateKVBucket(conn, "kf-leaders", 10*time.Second); err != nil {
+		t.Fatal(err)
+	}
+	defer func() { _ = CleanupKVBucket(conn, "kf-leaders") }()
+	cfg := kCfg()
+	cfg.Bucket = "kf-leaders"
+	el, err := NewElectionWithConn(conn, cfg)
+	if err != nil {
+		t.Fatal(err)
+	}
+	e := el.(*kvElection)
+	kLeader(t, e)
+	js, _ := conn.JetStream()
+	kv, _ := js.KeyValue("kf-leaders")
+	pb, _ := json.Marshal(leadershipPayload{ID: "B", Token: "tB", Priority: 9})
+	ent, err := kv.Get("g")
+	if err != nil {
+		t.Fatal(err)
+	}
+	// B legitimately replaces A's record; A has not noticed yet
+	if _, err := kv.Update("g", pb, ent.Revision()); err != nil {
+		t.Skipf("setup: B's takeover lost a race with A's heartbeat: %v", err)
+	}
+	_ = e.StopWithContext(context.Background(), StopOptions{DeleteKey: true})
+	got, err := kv.Get("g")
+	if err != nil || string(got.Value()) != string(pb) {
+		t.Fatalf("VIOLATION-REPRODUCED: A's shutdown removed the record owned by B on the real store (get: %v)", err)
+	}
+}
+
 // fieldinv(revision)/storepolicy(leaderID) at handleWatchEvent: an ex-leader's
 // heartbeat refreshes the record of its successor with its own id and old token.
 func TestKnown_C01_FollowerSideRevisionStore_WatchEvent(t *testing.T) {
